@@ -27,7 +27,7 @@ theorem buffer_sizes :
 /-- every length guard the model relies on is present in the source (regenerated: function, source text of the
     comparison, number of occurrences).  A guard that is removed, or whose operator / operand changes, breaks this
     obligation. -/
-theorem buffer_guards_present : lengthGuards.all (fun g => decide (g.2.2 ≥ 1)) = true ∧ lengthGuards.length = 14 := by
+theorem buffer_guards_present : lengthGuards.all (fun g => decide (g.2.2 ≥ 1)) = true ∧ lengthGuards.length = 20 := by
   decide
 
 /-! ### get_dir -/
